@@ -161,6 +161,14 @@ impl SignalHandler {
 
     instance.children.remove(&pid);
 
-    (result, instance.caught)
+    // a signal that arrived while the child was running may not have reached
+    // the signal handler thread yet
+    #[cfg(unix)]
+    let caught = instance.caught.or_else(crate::signals::delivered);
+
+    #[cfg(not(unix))]
+    let caught = instance.caught;
+
+    (result, caught)
   }
 }
